@@ -431,6 +431,18 @@ class C06(Check):
                     if bad:
                         break
             if bad and not tr2.exception:
+                # the solver is not bitwise reproducible: a last-ulp difference can flip a control decision. Only a difference that
+                # a SECOND report_timestep='ALL' run does not show against the first one is put down to the report grid.
+                tr3 = K.run_instrumented(spec)
+                full3 = {r["t"]: r for r in tr3.rows}
+                same = sorted(full3) == sorted(full) and all(
+                    [v[0] for v in full3[t]["links"].values()] == [v[0] for v in full[t]["links"].values()]
+                    and all(abs(x - y) <= 1e-6 * max(1.0, abs(x), abs(y)) for tn in full[t]["tanks"] for x, y in zip(full3[t]["tanks"][tn], full[t]["tanks"][tn]))
+                    for t in full)
+                if not same:
+                    ctx.count("grid-rerun:nondeterministic-run-skipped")
+                    bad = None
+            if bad and not tr2.exception:
                 failures.append(Failure("report-grid", "report_timestep=%d: %s" % (rep, bad), {"spec": spec, "report": rep, "observed": bad}))
         return tr
 
